@@ -388,9 +388,11 @@ class ExcelCompiler:
         :param plugins: module paths for plugin lib functions
         """
 
-        extension = cls._filename_has_extension(filename) or next(
+        extension = cls._filename_has_extension(filename) or next(iter(sorted(
             (ext for ext in cls.save_file_extensions
-             if os.path.exists(filename + '.' + ext)), None)
+             if os.path.exists(filename + '.' + ext)),
+            # the most recent save, earlier extensions first among equals
+            key=lambda ext: -os.path.getmtime(filename + '.' + ext))), None)
 
         if not extension:
             raise ValueError(f"Unrecognized file type or compiled file not found: '{filename}'")
